@@ -1611,6 +1611,13 @@ where
 
         self.status = ConnectionStatus::Connected;
 
+        // aliases bound by publishes that were accepted before the connection was established were
+        // only stored (they are re-sent below with the full topic and no alias): the receiver has
+        // learned none of them
+        if let Some(ref mut topic_alias_send) = self.topic_alias_send {
+            topic_alias_send.clear();
+        }
+
         events.extend(self.send_stored());
         self.send_post_process(&mut events);
 
